@@ -25,7 +25,7 @@ RULE = ("48 policy combinations x encodings {ndarray C, ndarray F / transposed v
         "and query contexts, plus single-feature and single-row problems passed as Series; list encoding is the reference. "
         "Non-trivial = encoding that is not C-contiguous float64, or a Series on a one-feature / one-row problem; distinct = "
         "(combo, encoding, shape class)")
-BUDGET = {"quick": {"cases": 48 * 18, "shards": 16}, "thorough": {"cases": 48 * 9 * 60, "shards": 16, "wall_s": 3600}}
+BUDGET = {"quick": {"cases": 48 * 20, "shards": 16}, "thorough": {"cases": 48 * 10 * 60, "shards": 16, "wall_s": 3600}}
 MIN = {"quick": {"evaluations": 700, "nontrivial": 250, "counters": {"c18_snapshots": 2000, "c18_ctor_snapshots": 700}},
        "thorough": {"evaluations": 20000, "nontrivial": 800, "counters": {"c18_snapshots": 60000, "c18_ctor_snapshots": 20000}}}
 ASSUMPTIONS = ["integer encodings are used only where every value is integral (contexts always; rewards when binary)",
@@ -267,9 +267,70 @@ def run_series(rs, ctx, l, p, mode):
     ctx.sample({"cfg": cfg, "mode": "series_" + mode, "shifted_index": shift})
 
 
+def run_sim(rs, ctx):
+    """the Simulator is a caller of the library too: what it is handed (decisions, rewards, contexts - with and without a
+    scikit-learn scaler, ordered and random split) must come back unchanged, and lists and arrays must give the same run"""
+    import logging
+    from sklearn.preprocessing import StandardScaler
+    from mabwiser.simulator import Simulator
+    from mon import simgen
+    spec = simgen.gen_simulation(rs, n_rows=(24, 48))
+    if spec["X"] is None:
+        spec["X"] = gen.gen_contexts(rs, len(spec["d"]), 2, hi=5)
+    for c in spec["cfgs"]:
+        c["n_jobs"], c["backend"] = 1, None
+    p = spec["params"]
+    use_scaler = bool(rs.integers(3))
+    dtype = gen.pick(rs, [np.float64, np.float64, np.float32])
+    order = gen.pick(rs, ["C", "C", "F"])
+
+    def one(as_arrays):
+        bandits = [("b%d" % i, gen.build(c)) for i, c in enumerate(spec["cfgs"])]
+        if as_arrays:
+            d, r = np.asarray(spec["d"]), np.asarray(spec["r"], dtype=float)
+            X = np.asarray(spec["X"], dtype=dtype, order=order)
+        else:
+            d, r, X = list(spec["d"]), list(spec["r"]), [list(x) for x in spec["X"]]
+        before = [gen.canon(np.asarray(d).tolist()), np.asarray(r, dtype=float).tobytes(), np.asarray(X, dtype=float).tobytes()]
+        root = logging.getLogger()
+        handlers = list(root.handlers)
+        try:
+            sim = Simulator(bandits=bandits, decisions=d, rewards=r, contexts=X, scaler=StandardScaler() if use_scaler else None,
+                            test_size=p["test_size"], is_ordered=p["is_ordered"], batch_size=p["batch_size"], seed=p["seed"],
+                            is_quick=p["is_quick"])
+            sim.run()
+            out = gen.canon({k: list(v) for k, v in sim.bandit_to_predictions.items()})
+        except Exception as ex:  # noqa: BLE001
+            out = ["EXC", type(ex).__name__]
+        finally:
+            for h in list(root.handlers):
+                if h not in handlers:
+                    root.removeHandler(h)
+        after = [gen.canon(np.asarray(d).tolist()), np.asarray(r, dtype=float).tobytes(), np.asarray(X, dtype=float).tobytes()]
+        return out, [n for n, a, b in zip(("decisions", "rewards", "contexts"), before, after) if a != b]
+
+    wit = {"simulation": {k: spec[k] for k in ("cfgs", "d", "r", "X", "params")}, "scaler": use_scaler, "dtype": np.dtype(dtype).name, "order": order}
+    out_l, ch_l = one(False)
+    out_a, ch_a = one(True)
+    ctx.ev(2)
+    ctx.count("simulator_container_runs", 2)
+    if ch_l or ch_a:
+        ctx.violation("Simulator.run (scaler=%s, is_ordered=%s) modified the caller's %s passed as %s" % (
+            use_scaler, p["is_ordered"], ", ".join(ch_a or ch_l), "arrays" if ch_a else "lists"), wit, kind="simulator_modified_input")
+        return
+    if dtype == np.float64 and out_l != out_a and "EXC" not in (out_l[:1] + out_a[:1]):
+        ctx.violation("Simulator (scaler=%s, is_ordered=%s): lists and arrays of the same values give different predictions: %s" % (
+            use_scaler, p["is_ordered"], twin.first_diff(out_l, out_a)), wit, kind="simulator_container")
+        return
+    ctx.nt("simulator", use_scaler, p["is_ordered"], np.dtype(dtype).name, order)
+    ctx.sample({"mode": "simulator", "scaler": use_scaler, "is_ordered": p["is_ordered"], "dtype": np.dtype(dtype).name, "order": order})
+
+
 def run_case(rs, ctx):
     l, p = gen.ALL_COMBOS[ctx.index % 48]
-    slot = (ctx.index // 48) % 9
+    slot = (ctx.index // 48) % 10
+    if slot == 9:
+        return run_sim(rs, ctx) if ctx.index % 4 == 0 else run_std(rs, ctx, l, p, "rev")
     if slot == 8:
         return run_std(rs, ctx, l, p, "narrow")
     if slot == 5:
